@@ -271,6 +271,7 @@ type Site struct {
 	Target string // callee / type / "nil" | "nonnil" | "" / T.f
 	Assert Clause
 	Label  string
+	Nth    int // -1: every match; k: only the k-th match in encounter order
 }
 
 type LoopAnn struct {
@@ -338,6 +339,8 @@ type ContractFile struct {
 	Lemmas    []*Lemma
 	EffectFree []string
 	InlinePkgs []string
+	LoadPkgs   []string
+	InlineFuncs []string
 }
 
 var siteAssertRe = regexp.MustCompile(`:\s*assert\s+`)
@@ -346,7 +349,7 @@ var clauseKeywords = map[string]bool{
 	"spec": true, "func": true, "extern": true, "lemma": true, "props": true, "requires": true,
 	"ensures": true, "nowrap": true, "nopanic": true, "theory": true, "inline": true, "pure": true,
 	"modifies": true, "site": true, "covers-nonnil-returns": true, "loop": true, "let": true,
-	"trusted": true, "effect-free": true, "inline-pkg": true, "replay": true,
+	"trusted": true, "effect-free": true, "inline-pkg": true, "replay": true, "load-pkg": true, "inline-func": true,
 }
 
 // ParseContractFile reads the //@ lines of a contract file and groups them into clauses.
@@ -408,6 +411,12 @@ func ParseContractFile(path, pkgPath string) (*ContractFile, error) {
 			continue
 		case "inline-pkg":
 			cf.InlinePkgs = append(cf.InlinePkgs, strings.Fields(rc.text)...)
+			continue
+		case "load-pkg":
+			cf.LoadPkgs = append(cf.LoadPkgs, strings.Fields(rc.text)...)
+			continue
+		case "inline-func":
+			cf.InlineFuncs = append(cf.InlineFuncs, strings.Fields(rc.text)...)
 			continue
 		case "spec":
 			sf, err := parseSpecFunc(rc.text)
@@ -572,11 +581,18 @@ func ParseContractFile(path, pkgPath string) (*ContractFile, error) {
 			if len(head) < 1 {
 				return nil, fmt.Errorf("%s:%d: bad site", path, rc.line)
 			}
-			st := Site{Kind: head[0]}
+			st := Site{Kind: head[0], Nth: -1}
 			rest := head[1:]
 			for k := 0; k < len(rest); k++ {
 				if rest[k] == "as" && k+1 < len(rest) {
 					st.Label = rest[k+1]
+					k++
+				} else if rest[k] == "nth" && k+1 < len(rest) {
+					n, err := strconv.Atoi(rest[k+1])
+					if err != nil {
+						return nil, fmt.Errorf("%s:%d: bad nth", path, rc.line)
+					}
+					st.Nth = n
 					k++
 				} else if st.Target == "" {
 					st.Target = rest[k]
